@@ -41,6 +41,11 @@ var engines = map[string]string{
 	"C09": "cli", "C10": "cli", "C12": "cli", "C13": "cli", "C17": "cli", "C19": "cli", "C20": "cli",
 }
 
+// additional engines that contribute shards to a property's check (their TestPlan is asked too)
+var extraEngines = map[string][]string{
+	"C07": {"cli"}, "C11": {"cli"}, "C15": {"cli"},
+}
+
 // engines whose checks run the spok binary
 var needsBinary = map[string]bool{"cli": true}
 
@@ -143,19 +148,21 @@ func (c *ctx) goEnv(mod string) []string {
 }
 
 // buildEngine compiles the engine test binary (optionally with -race).
-func (c *ctx) buildEngine(race bool) (string, error) {
-	out := filepath.Join(c.build, "engine.test")
+func (c *ctx) buildEngine(race bool) (string, error) { return c.buildEngineOf(c.engine, race) }
+
+func (c *ctx) buildEngineOf(engine string, race bool) (string, error) {
+	out := filepath.Join(c.build, engine+".test")
 	args := []string{"test", "-c", "-tags", "verif", "-o", out}
 	if race {
-		out = filepath.Join(c.build, "engine-race.test")
+		out = filepath.Join(c.build, engine+"-race.test")
 		args = []string{"test", "-c", "-race", "-tags", "verif", "-o", out}
 	}
-	args = append(args, "./"+c.engine)
+	args = append(args, "./"+engine)
 	cmd := exec.Command("go", args...)
 	cmd.Dir = c.harness
 	cmd.Env = c.goEnv("mod")
 	if b, err := cmd.CombinedOutput(); err != nil {
-		return "", fmt.Errorf("building engine %s: %v\n%s", c.engine, err, b)
+		return "", fmt.Errorf("building engine %s: %v\n%s", engine, err, b)
 	}
 	return out, nil
 }
@@ -200,7 +207,7 @@ type shardResult struct {
 // crasher is converted into an ordinary replay case.
 func (c *ctx) runFuzz(spec ev.ShardSpec) shardResult {
 	res := shardResult{spec: spec}
-	pkgDir := filepath.Join(c.harness, c.engine)
+	pkgDir := filepath.Join(c.harness, c.engineOf(spec))
 	target := strings.Trim(spec.Test, "^$")
 	crashDir := filepath.Join(pkgDir, "testdata", "fuzz", target)
 	before := map[string]bool{}
@@ -219,7 +226,7 @@ func (c *ctx) runFuzz(spec ev.ShardSpec) shardResult {
 	}
 	cx, cancel := context.WithTimeout(context.Background(), timeout)
 	defer cancel()
-	args := []string{"test", "-tags", "verif", "-run", "^$", "-fuzz", spec.Test, "-fuzztime", fuzztime, "./" + c.engine}
+	args := []string{"test", "-tags", "verif", "-run", "^$", "-fuzz", spec.Test, "-fuzztime", fuzztime, "./" + c.engineOf(spec)}
 	cmd := exec.CommandContext(cx, "go", args...)
 	cmd.Dir = c.harness
 	env := append(c.goEnv("mod"), "VERIF_ID="+c.id, "VERIF_TIER="+c.tier, "VERIF_ROOT="+c.root, "VERIF_REPO="+c.repo)
@@ -326,7 +333,7 @@ func (c *ctx) runShard(bin string, spec ev.ShardSpec, n int) shardResult {
 	args := []string{"-test.run", spec.Test, "-test.timeout", "0", "-test.count", "1"}
 	args = append(args, spec.Args...)
 	cmd := exec.CommandContext(cx, bin, args...)
-	cmd.Dir = filepath.Join(c.harness, c.engine)
+	cmd.Dir = filepath.Join(c.harness, c.engineOf(spec))
 	env := c.baseEnv(out)
 	env = append(env, "VERIF_SHARD="+spec.Name, "VERIF_PROGRESS="+prog)
 	if spec.Range {
@@ -395,11 +402,18 @@ func tail(s string, n int) string {
 	return s[len(s)-n:]
 }
 
-func (c *ctx) getPlan(bin string) (*ev.Plan, error) {
-	out := filepath.Join(c.work, "plan")
+func (c *ctx) engineOf(spec ev.ShardSpec) string {
+	if spec.Engine != "" {
+		return spec.Engine
+	}
+	return c.engine
+}
+
+func (c *ctx) getPlan(bin, engine string) (*ev.Plan, error) {
+	out := filepath.Join(c.work, "plan-"+engine)
 	_ = os.MkdirAll(out, 0o755)
 	cmd := exec.Command(bin, "-test.run", "^TestPlan$", "-test.count", "1")
-	cmd.Dir = filepath.Join(c.harness, c.engine)
+	cmd.Dir = filepath.Join(c.harness, engine)
 	cmd.Env = c.baseEnv(out)
 	b, err := cmd.CombinedOutput()
 	if err != nil {
@@ -427,36 +441,64 @@ type crashRec struct {
 }
 
 func (c *ctx) run() int {
+	bins := map[string]string{}     // engine -> test binary
+	raceBins := map[string]string{} // engine -> -race test binary
 	bin, err := c.buildEngine(false)
 	if err != nil {
 		inconclusive("%v", err)
 	}
-	if needsBinary[c.engine] {
+	bins[c.engine] = bin
+	needBin := needsBinary[c.engine]
+	for _, e := range extraEngines[c.id] {
+		needBin = needBin || needsBinary[e]
+	}
+	if needBin {
 		if _, err := c.buildBinary(); err != nil {
 			inconclusive("%v", err)
 		}
 	}
-	plan, err := c.getPlan(bin)
+	plan, err := c.getPlan(bin, c.engine)
 	if err != nil {
 		inconclusive("%v", err)
+	}
+	for i := range plan.Shards {
+		plan.Shards[i].Engine = c.engine
+	}
+	for _, e := range extraEngines[c.id] {
+		b, err := c.buildEngineOf(e, false)
+		if err != nil {
+			inconclusive("%v", err)
+		}
+		bins[e] = b
+		extra, err := c.getPlan(b, e)
+		if err != nil {
+			inconclusive("%v", err)
+		}
+		for _, sh := range extra.Shards {
+			sh.Engine = e
+			plan.Shards = append(plan.Shards, sh)
+		}
+		if extra.Rule != "" {
+			plan.Rule += " || " + extra.Rule
+		}
 	}
 	// replay tier: the saved minimal cases of earlier findings, without any generator
 	regress, _ := filepath.Glob(filepath.Join(c.root, "regress", c.id, "*.json"))
 	sort.Strings(regress)
 	c.regressTotal = len(regress)
 	for _, path := range regress {
-		if code, out := c.replayFile(bin, path, 5*time.Minute); code != 0 {
+		if code, out := c.replayFile(bins, path, 5*time.Minute); code != 0 {
 			c.regressFailed = append(c.regressFailed, path)
 			fmt.Printf("--- %s: saved regression case fails again: %s\n%s\n", c.id, path, tail(out, 2000))
 		}
 	}
-	raceBin := ""
 	for _, s := range plan.Shards {
-		if s.Race && raceBin == "" {
-			raceBin, err = c.buildEngine(true)
+		if s.Race && raceBins[s.Engine] == "" {
+			rb, err := c.buildEngineOf(s.Engine, true)
 			if err != nil {
 				inconclusive("%v", err)
 			}
+			raceBins[s.Engine] = rb
 		}
 	}
 	par := plan.Parallel
@@ -494,9 +536,9 @@ func (c *ctx) run() int {
 				<-sem
 				return
 			}
-			b := bin
+			b := bins[spec.Engine]
 			if spec.Race {
-				b = raceBin
+				b = raceBins[spec.Engine]
 			}
 			r := c.runShard(b, spec, n)
 			<-sem
@@ -547,7 +589,7 @@ func (c *ctx) run() int {
 			wg.Wait()
 		}
 	}
-	return c.merge(plan, results, crashes, bin)
+	return c.merge(plan, results, crashes, bins)
 }
 
 func (c *ctx) loadFindings() []ev.Finding {
@@ -558,7 +600,7 @@ func (c *ctx) loadFindings() []ev.Finding {
 	return ff.Findings
 }
 
-func (c *ctx) merge(plan *ev.Plan, results []shardResult, crashes []crashRec, bin string) int {
+func (c *ctx) merge(plan *ev.Plan, results []shardResult, crashes []crashRec, bins map[string]string) int {
 	sort.Slice(results, func(i, j int) bool { return results[i].spec.Name < results[j].spec.Name })
 	var (
 		evals     int64
@@ -602,7 +644,10 @@ func (c *ctx) merge(plan *ev.Plan, results []shardResult, crashes []crashRec, bi
 			}
 		}
 		notes = append(notes, p.Notes...)
-		vios = append(vios, p.Violations...)
+		for _, v := range p.Violations {
+			v.Engine = r.spec.Engine
+			vios = append(vios, v)
+		}
 		for _, h := range r.hashes {
 			union[h] = struct{}{}
 		}
@@ -660,7 +705,7 @@ func (c *ctx) merge(plan *ev.Plan, results []shardResult, crashes []crashRec, bi
 			if cr.TimedOut {
 				what = "stalled (killed by the shard deadline)"
 			}
-			v := ev.Violation{Property: c.id, Kind: plan.ReplayKindCrash, Sig: "process-" + strings.Fields(what)[0], Size: len(payload),
+			v := ev.Violation{Property: c.id, Engine: c.engine, Kind: plan.ReplayKindCrash, Sig: "process-" + strings.Fields(what)[0], Size: len(payload),
 				Msg: fmt.Sprintf("worker process %s while executing the case in flight (exit %d); log tail:\n%s", what, cr.Exit, tail(cr.LogTail, 1500)), Case: data}
 			// confirm solo: the replay must die as well, otherwise the crash is not attributable;
 			// one confirmed witness per run is enough (each confirmation may take the full replay deadline)
@@ -668,7 +713,7 @@ func (c *ctx) merge(plan *ev.Plan, results []shardResult, crashes []crashRec, bi
 				notes = append(notes, fmt.Sprintf("shard %s also died abnormally (exit %d, timeout %v)", cr.Shard, cr.Exit, cr.TimedOut))
 				continue
 			}
-			if c.confirmCrash(bin, v) {
+			if c.confirmCrash(bins, v) {
 				confirmed = true
 				vios = append(vios, v)
 			} else {
@@ -802,21 +847,37 @@ func (c *ctx) merge(plan *ev.Plan, results []shardResult, crashes []crashRec, bi
 
 // confirmCrash replays a case reconstructed from the progress area; true when the replay
 // also ends abnormally or reports a violation.
-func (c *ctx) confirmCrash(bin string, v ev.Violation) bool {
+func (c *ctx) confirmCrash(bins map[string]string, v ev.Violation) bool {
 	path := filepath.Join(c.work, "confirm.json")
 	data, _ := json.Marshal(v)
 	_ = os.WriteFile(path, data, 0o644)
-	code, _ := c.replayFile(bin, path, 45*time.Second)
+	code, _ := c.replayFile(bins, path, 45*time.Second)
 	return code != 0
 }
 
-func (c *ctx) replayFile(bin, path string, timeout time.Duration) (int, string) {
+func (c *ctx) replayFile(bins map[string]string, path string, timeout time.Duration) (int, string) {
+	engine := c.engine
+	if data, err := os.ReadFile(path); err == nil {
+		var v ev.Violation
+		if json.Unmarshal(data, &v) == nil && v.Engine != "" {
+			engine = v.Engine
+		}
+	}
+	bin, ok := bins[engine]
+	if !ok {
+		b, err := c.buildEngineOf(engine, false)
+		if err != nil {
+			return 2, err.Error()
+		}
+		bins[engine] = b
+		bin = b
+	}
 	out := filepath.Join(c.work, "replay")
 	_ = os.MkdirAll(out, 0o755)
 	cx, cancel := context.WithTimeout(context.Background(), timeout)
 	defer cancel()
 	cmd := exec.CommandContext(cx, bin, "-test.run", "^TestReplay$", "-test.count", "1", "-test.v", "-test.timeout", "0")
-	cmd.Dir = filepath.Join(c.harness, c.engine)
+	cmd.Dir = filepath.Join(c.harness, engine)
 	cmd.Env = append(c.baseEnv(out), "VERIF_REPLAY="+path)
 	cmd.SysProcAttr = &syscall.SysProcAttr{Setpgid: true}
 	cmd.Cancel = func() error { return syscall.Kill(-cmd.Process.Pid, syscall.SIGKILL) }
@@ -837,16 +898,11 @@ func (c *ctx) replayFile(bin, path string, timeout time.Duration) (int, string) 
 func (c *ctx) replay(path string) int {
 	abs, err := filepath.Abs(path)
 	must(err)
-	bin, err := c.buildEngine(false)
-	if err != nil {
+	bins := map[string]string{}
+	if _, err := c.buildBinary(); err != nil && (needsBinary[c.engine] || len(extraEngines[c.id]) > 0) {
 		inconclusive("%v", err)
 	}
-	if needsBinary[c.engine] {
-		if _, err := c.buildBinary(); err != nil {
-			inconclusive("%v", err)
-		}
-	}
-	code, out := c.replayFile(bin, abs, 5*time.Minute)
+	code, out := c.replayFile(bins, abs, 5*time.Minute)
 	fmt.Print(out)
 	if code != 0 {
 		fmt.Printf("VIOLATION property=%s replay=%s\n", c.id, abs)
